@@ -24,8 +24,8 @@ def shapes(maxlen):
 
 def gen(quick: bool) -> str:
     out = []
-    ML = 2 if quick else 3  # deepest open marker
-    TL = 3 if quick else 4  # token length
+    ML = 2 if quick else 4  # deepest open marker
+    TL = 3 if quick else 5  # token length
     for lens in shapes(ML):
         k = max(lens) if lens else 0
         tag = "c" + ("".join(map(str, lens)) or "0")
@@ -184,10 +184,10 @@ def run(rep: C.Report) -> None:
         rep,
         H,
         {
-            "^head_": dict(name="Ob1 heading step: lower-level sections stay open, everything else closes, new section hangs under the nearest lower level", functions=["parser.py:subtitle_start_fn", "parser.py:close_begline_lists", "parser.py:_parser_pop"], bounds=f"all 64 open-level masks x levels 1..6 x list chains with deepest marker <= {2 if quick else 3} symbolic chars"),
+            "^head_": dict(name="Ob1 heading step: lower-level sections stay open, everything else closes, new section hangs under the nearest lower level", functions=["parser.py:subtitle_start_fn", "parser.py:close_begline_lists", "parser.py:_parser_pop"], bounds=f"all 64 open-level masks x levels 1..6 x list chains with deepest marker <= {2 if quick else 4} symbolic chars"),
             "^hend_": dict(name="Ob2 heading end on the same line moves the text into the heading argument", functions=["parser.py:subtitle_end_fn"], bounds="all 64 masks x levels 1..6"),
             "^hline_": dict(name="Ob3 rule closes sections deeper than level 2 and lands in the remaining top", functions=["parser.py:hline_fn"], bounds="all 64 masks x list chains"),
-            "^list_": dict(name="Ob4 list step: equal marker continues the list, proper-prefix item nests, anything else starts a new list", functions=["parser.py:list_fn", "parser.py:pop_until_nth_list"], bounds=f"chains with deepest marker <= {2 if quick else 3}, token <= {3 if quick else 4} symbolic chars over {{*,#}}, with/without an open section"),
+            "^list_": dict(name="Ob4 list step: equal marker continues the list, proper-prefix item nests, anything else starts a new list", functions=["parser.py:list_fn", "parser.py:pop_until_nth_list"], bounds=f"chains with deepest marker <= {2 if quick else 4}, token <= {3 if quick else 5} symbolic chars over {{*,#}}, with/without an open section"),
             "^fill_": dict(name="Ob5 filler text at line start closes all lists and lands in the section", functions=["parser.py:text_fn"], bounds="same chains; one text character"),
         },
         timeout=120 if quick else 600,
